@@ -137,9 +137,14 @@ func concScenario(s *Stream, r *Rng, idx int) {
 			}
 		}
 	}()
+	// transaction ids are chosen by the clients, independently of each other: in a quarter of the scenarios every host
+	// happens to use one and the same id for all its messages (retransmissions reuse the id of their exchange anyway)
+	sameXid := r.Chance(25)
 	xid := uint32(idx) << 16
 	send := func(h *concHost, m MsgSpec) {
-		xid++
+		if !sameXid {
+			xid++
+		}
 		m.MAC, m.Cid, m.Xid = h.mac, h.cid, xid
 		logf("send type=%d from %s req=%v", m.Type, h.mac, m.ReqIP)
 		env.Seg.Inject(0x0800, m.Frame())
@@ -147,7 +152,11 @@ func concScenario(s *Stream, r *Rng, idx int) {
 	// phase 1: overlapping DISCOVERs (each lands while an earlier handler sleeps, probes and holds the lock)
 	for _, h := range hosts {
 		send(h, MsgSpec{Type: 1})
-		time.Sleep(time.Duration(r.Intn(400)) * time.Millisecond)
+		if sameXid {
+			time.Sleep(time.Duration(r.Intn(25)) * time.Millisecond) // back to back: the next one lands while this one's handler is busy
+		} else {
+			time.Sleep(time.Duration(r.Intn(400)) * time.Millisecond)
+		}
 	}
 	// every host retries its DISCOVER until it has an offer (a lost race costs one packet, never more)
 	deadline := time.Now().Add(time.Duration(6+pool) * time.Second)
@@ -161,6 +170,9 @@ func concScenario(s *Stream, r *Rng, idx int) {
 			if o == nil {
 				missing++
 				send(h, MsgSpec{Type: 1})
+			} else if sameXid {
+				send(h, MsgSpec{Type: 1}) // a client that has not seen its offer yet retransmits too: same id, same order, back to back
+				time.Sleep(time.Duration(r.Intn(10)) * time.Millisecond)
 			}
 		}
 		if missing == 0 {
@@ -186,7 +198,7 @@ func concScenario(s *Stream, r *Rng, idx int) {
 	// ---- verdicts ----
 	hmu.Lock()
 	defer hmu.Unlock()
-	op := fmt.Sprintf("conc hosts=%d pool=%d", k, pool)
+	op := fmt.Sprintf("conc hosts=%d pool=%d samexid=%v", k, pool, sameXid)
 	fail := func(sig, what string) {
 		s.Find(Finding{Property: "C09", Signature: sig, Stream: "srvconc", What: what, Ops: append([]string{op}, hist...), Config: c.Line(0)})
 	}
@@ -220,6 +232,7 @@ func concScenario(s *Stream, r *Rng, idx int) {
 	sort.Strings(grants)
 	s.Op("note "+op+" grants="+strings.Join(grants, ","), "ok", true)
 	s.Count(fmt.Sprintf("hosts=%d", k))
+	s.Count(fmt.Sprintf("samexid=%v", sameXid))
 }
 
 var envMu sync.Mutex // StartServer touches a package-level counter
